@@ -70,28 +70,35 @@ func StartHeliosErr(yamlText string) (h *Helios, stop func(), err error) {
 // startBinaryFront starts the helios binary for the lab's configuration and points the lab at it.
 func (l *SocketLab) startBinaryFront() error {
 	cfg := l.Cfg
-	ports := FreePorts(1)
-	if len(ports) != 1 {
-		return fmt.Errorf("harness: no free port for the helios binary")
-	}
-	cfg.Server.Port = ports[0]
 	// the lab owns no further listeners
 	cfg.Metrics.Enabled = false
 	cfg.AdminAPI.Enabled = false
-	y, err := yaml.Marshal(cfg)
-	if err != nil {
-		return fmt.Errorf("harness: configuration does not marshal: %v", err)
-	}
-	h, stop, err := StartHeliosErr(string(y))
-	if err != nil {
-		return err
-	}
-	if !h.WaitPort(ports[0], 10*time.Second) {
-		log := h.Log()
+	var lastErr error
+	for attempt := 0; attempt < 4; attempt++ {
+		ports := FreePorts(1)
+		if len(ports) != 1 {
+			return fmt.Errorf("harness: no free port for the helios binary")
+		}
+		cfg.Server.Port = ports[0]
+		y, err := yaml.Marshal(cfg)
+		if err != nil {
+			return fmt.Errorf("harness: configuration does not marshal: %v", err)
+		}
+		h, stop, err := StartHeliosErr(string(y))
+		if err != nil {
+			return err
+		}
+		// The port was free a moment ago, but another process on the machine may have taken it since: the lab
+		// must talk to ITS helios, so ownership of the listener is confirmed (and another port tried otherwise).
+		if h.WaitPort(ports[0], 10*time.Second) && h.ListensOn(ports[0]) {
+			if ex, _ := h.Exited(); !ex {
+				l.Helios, l.stopHelios = h, stop
+				l.Addr = fmt.Sprintf("127.0.0.1:%d", ports[0])
+				return nil
+			}
+		}
+		lastErr = fmt.Errorf("harness: the helios binary did not (itself) listen on port %d within 10 s; configuration:\n%s\nlog:\n%s", ports[0], y, h.Log())
 		stop()
-		return fmt.Errorf("harness: the helios binary did not listen on its port within 10 s; configuration:\n%s\nlog:\n%s", y, log)
 	}
-	l.Helios, l.stopHelios = h, stop
-	l.Addr = fmt.Sprintf("127.0.0.1:%d", ports[0])
-	return nil
+	return lastErr
 }
